@@ -471,6 +471,10 @@ func hexGroup(r *vh.RNG) string {
 
 // genIPv6Valid: full form, one "::" compression, or an embedded dotted quad tail.
 func genIPv6Valid(r *vh.RNG) string {
+	if r.Chance(1, 12) {
+		// IPv4-mapped: an ipv6 by its text although the address is an IPv4 one
+		return vh.Pick(r, []string{"::ffff:", "::FFFF:", "0:0:0:0:0:ffff:"}) + quadString(genQuad(r))
+	}
 	groups := 8
 	tail := ""
 	if r.Chance(1, 5) {
